@@ -13,6 +13,18 @@ CLAIMED = {
   note="Trusts TLC's evaluation of lib/Graphs.tla, the Go observation code (harness/internal/obs) and JSON transport. Valid arguments only.",
   technique="TLA+ state machine + TLC exhaustive transition dump replayed on the code; TLC trace validation of recorded histories",
   design_ref="DESIGN.md section 6, C05"),
+ "C17": dict(
+  level="model_checking",
+  text="SortedInts.tla specifies sortints as a state machine over handles holding finite integer sets, one action per public function, with "
+       "effect (Eff) and returned value (Res) as operators of the action record. TLC explores it exhaustively (2 handles, universe of 4/5 ints, "
+       "every variadic argument list of length <=3) and dumps every transition; each is replayed on the real code from a shortest history "
+       "(receivers with and without spare capacity), comparing result, argument list and the raw contents of every handle. Random histories, the "
+       "whole Range grid and ints.Sort inputs are recorded from the real code and validated by the TLC acceptor SortedIntsTrace.tla, which "
+       "reuses Eff/Res.",
+  note="Trusts TLC, the harness and JSON transport. ints.Sort is judged as 'ascending permutation of the input' on inputs with few distinct values; "
+       "the heapsort fallback of ints.Sort is only reached if an adversarial input is among the generated ones (not guaranteed).",
+  technique="TLA+ state machine + TLC exhaustive transition dump replayed on the code; TLC trace validation of recorded histories",
+  design_ref="DESIGN.md section 6, C17"),
 }
 
 PENDING_REASON = "check not built yet in this round (planned with the same TLA+/TLC pipeline, see DESIGN.md section 6)"
